@@ -23,6 +23,7 @@ def dispatch (j : Json) : Except String Json := do
   | "interval_run" => opIntervalRun j
   | "pfi_eff" => opEffRun false j
   | "sage_eff" => opEffRun true j
+  | "impute_inputs" => opImputeInputs j
   | "ping" => pure (Json.mkObj [("pong", Json.bool true)])
   | o => .error s!"unknown op {o}"
 
